@@ -84,9 +84,9 @@ class Plan:
         if tier == "thorough":
             cs += [self._check("remote", ["poll", "poll_b", "poll_until_ready"], 2),
                    self._check("local", ["poll", "poll_b", "poll_until_ready"], 2),
-                   self._check("remote", ["poll", "detach"], 3), self._check("local", ["poll", "detach"], 3),
-                   self._check("local", ["detach"], None), self._check("local", ["cancel_poll"], None),
-                   self._check("remote", ["cancel_poll"], 3, True), self._check("local", ["drop"], 3, True)]
+                   self._check("remote", ["poll", "detach"], 2), self._check("local", ["poll", "detach"], 2),
+                   self._check("local", ["detach"], None),
+                   self._check("remote", ["cancel_poll"], 2, True), self._check("local", ["drop"], 2, True)]
         return cs
 
     def encoded(self):
